@@ -169,7 +169,40 @@ ContainerDefaults ==
    PMatch(PType("int"), TRUE, VC("list", <<VTarg(<<>>)>>)),
    PList(<<PMatch(PType("int"), TRUE, VC("dict", << Entry(VStr("a"), VTarg(<<>>)) >>))>>)}
 
-P1 == Bools(Ls) \cup AndDefaults \cup EqMix \cup NestedMatch \cup ContainerDefaults \cup {PNot(c, "ctor") : c \in Leaves} \cup Seqs(Ls) \cup Sets1 \cup
+\* hardening: falsy-but-meaningful values in every position (targets, items, keys, defaults),
+\* falsy / subclassed containers, values with a hostile == -- a truth test is not an emptiness
+\* or None test, isinstance is not an exact-type test, == is not identity
+HardTargets ==
+  {VC("flist", <<VInt(1)>>), VC("flist", <<>>), VC("flist", <<VInt(1), VStr("a")>>), VC("fdict", << Entry(VStr("a"), VInt(1)) >>),
+   VC("fdict", <<>>), VC("ntuple", <<VInt(1)>>), VC("ntuple", <<VInt(1), VStr("a")>>), VC("ntuple", <<>>),
+   VAny, VGrumpy, VC("list", <<VAny>>), VC("list", <<VInt(1), VAny>>), VC("dict", << Entry(VStr("a"), VAny) >>), VC("tuple", <<VAny>>),
+   VC("list", <<VInt(0)>>), VC("list", <<VStr("")>>), VC("list", <<VBool(FALSE), VNone>>), VC("tuple", <<VInt(0)>>),
+   VC("tuple", <<VC("tuple", <<>>)>>), VC("list", <<VC("list", <<>>), VC("dict", <<>>)>>),
+   VC("dict", << Entry(VInt(0), VInt(0)) >>), VC("dict", << Entry(VStr(""), VStr("")) >>), VC("dict", << Entry(VNone, VNone) >>),
+   VC("dict", << Entry(VBool(FALSE), VC("list", <<>>)) >>), VC("dict", << Entry(VC("tuple", <<>>), VInt(0)) >>),
+   VC("odict", << Entry(VStr("b"), VInt(1)), Entry(VStr("a"), VInt(1)) >>), VInt(-1), VC("dict", << Entry(VStr("a"), VInt(0)) >>)}
+HardPatterns ==
+  {PList(<<PType("int")>>), PList(<<PLit(VInt(1))>>), PList(<<PLit(VInt(0)), PLit(VStr("")), PLit(VBool(FALSE))>>),
+   PList(<<PType("object")>>), PList(<<PList(<<>>), PDict(<<>>)>>), PList(<<PLit(VNone), PType("bool")>>),
+   PType("list"), PType("dict"), PType("tuple"), PType("object"), PLit(VInt(1)), PLit(VStr("a")), PLit(VInt(0)), PLit(VNone),
+   PTuple(<<PType("int")>>), PTuple(<<PType("int"), PType("str")>>), PTuple(<<>>), PTuple(<<PLit(VInt(0))>>), PTuple(<<PTuple(<<>>)>>),
+   PMTruthy, PNot(PMTruthy, "ctor"), PM("==", VInt(1)), PM("!=", VInt(1)), PM("==", VC("list", <<VInt(1)>>)), PM("==", VInt(0)),
+   PPred("truthy", 0), PPred("falsy", 0), POr(<<PMTruthy, PType("object")>>, "ctor", FALSE, VNone),
+   PDict(<<>>), PDict(<< <<PLit(VStr("a")), PType("int")>> >>), PDict(<< <<PType("str"), PType("object")>> >>),
+   PDict(<< <<PLit(VStr("a")), PLit(VInt(1))>> >>), PDict(<< <<PLit(VStr("a")), PLit(VInt(0))>> >>),
+   PDict(<< <<PLit(VInt(0)), PLit(VInt(0))>> >>), PDict(<< <<PLit(VStr("")), PType("str")>> >>), PDict(<< <<PLit(VNone), PLit(VNone)>> >>),
+   PDict(<< <<PLit(VBool(FALSE)), PList(<<>>)>> >>), PDict(<< <<PTuple(<<>>), PType("int")>> >>),
+   \* falsy keys and falsy defaults of Optional; None as an ordinary default
+   PDict(<< <<POptional(VInt(0), TRUE, VInt(0)), PType("int")>> >>), PDict(<< <<POptional(VStr(""), TRUE, VStr("")), PType("str")>> >>),
+   PDict(<< <<POptional(VStr("a"), TRUE, VBool(FALSE)), PType("object")>>, <<PType("object"), PType("object")>> >>),
+   PDict(<< <<POptional(VStr("a"), TRUE, VC("tuple", <<>>)), PType("object")>>, <<POptional(VStr("b"), TRUE, VNone), PType("object")>> >>),
+   PDict(<< <<POptional(VNone, TRUE, VNone), PType("object")>> >>),
+   PDict(<< <<PLit(VStr("b")), PType("int")>>, <<PLit(VStr("a")), PType("int")>> >>),
+   \* nested Match / Or whose result or default is falsy
+   PList(<<PMatch(PType("str"), TRUE, VInt(0))>>), PList(<<PMatch(PType("str"), TRUE, VNone)>>),
+   PMatch(PType("str"), TRUE, VStr("")), PMatch(PType("str"), TRUE, VC("list", <<>>)), PMatch(PType("str"), TRUE, VBool(FALSE))}
+
+P1 == Bools(Ls) \cup AndDefaults \cup EqMix \cup NestedMatch \cup ContainerDefaults \cup HardPatterns \cup {PNot(c, "ctor") : c \in Leaves} \cup Seqs(Ls) \cup Sets1 \cup
       {p \in DictPats(KeysP, Ls, KeysPP, ValsP) : DistinctKeys(p)}
 
 \* a selection of depth-1 patterns used as children at depth 2
@@ -229,7 +262,7 @@ ChoosePattern ==
 Shallow(p) == p \in Leaves \/ (p.op \in {"and", "or", "not"} /\ \A i \in 1..Len(p.c) : p.c[i] \in Leaves)
 \* ... and a container pattern never looks inside a target of another class (the type rule at
 \* the root decides): of those, only the targets of depth <= 1 are enumerated
-TargetsFor(p) ==
+TargetsFor0(p) ==
   IF Shallow(p) THEN Atoms0 \cup Depth1
   ELSE IF p \in EqMix THEN Atoms0 \cup Depth1 \cup EqLists
   ELSE IF p \in AndDefaults        \* every child asks for a dict (or is indifferent to what is inside others)
@@ -237,6 +270,8 @@ TargetsFor(p) ==
   ELSE IF p.op \in {"list", "set", "frozenset", "tuple", "dict"}
        THEN Atoms0 \cup Depth1 \cup {t \in Targets : PyIsInstance(t, p.op)}
   ELSE Targets
+\* the hardening patterns also meet the hardening targets
+TargetsFor(p) == IF p \in HardPatterns THEN TargetsFor0(p) \cup HardTargets ELSE TargetsFor0(p)
 ChooseTarget ==
   /\ phase = 1 /\ phase' = 2
   /\ target' \in TargetsFor(pattern)
